@@ -14,7 +14,8 @@ CHUNK = 4
 SEEDS = ['flat', 'h1', 'h2', 'shared', 'yaml', 'hmod', 'ybase']
 MUTATORS = ['upd', 'matrix', 'addedge', 'run_inplace']
 READS = ['run', 'grf', 'jac', 'get_nodes', 'get_edges_all', 'get_edges_sel', 'get_edge', 'collect_edges',
-         'get_node_template', 'getitem', 'to_yaml', 'deepcopy', 'update_template', 'load_derived', 'derive_nodes']
+         'get_node_template', 'getitem', 'to_yaml', 'deepcopy', 'update_template', 'load_derived', 'derive_nodes',
+         'grid_search', 'derive_operator']
 
 YAML = """%YAML 1.2
 ---
@@ -205,6 +206,21 @@ def read_op(c, info, r, k):
             c.update_template(nodes={'zz': extra})
             c.update_template(nodes={n0: extra})
         return None
+    if r == 'grid_search':
+        # a sweep over a node parameter and an edge attribute builds its circuits from copies
+        from pyrates import grid_search
+        grid_search(c, param_grid={'kk': [0.5, 2.5], 'ww': [1.0, 3.0]},
+                    param_map={'kk': {'vars': ['so/k'], 'nodes': [n0]},
+                               'ww': {'vars': ['weight'], 'edges': [tuple(info['edge'])]}},
+                    simulation_time=0.25, outputs={'o': f"{n0}/so/x"}, solver='euler', vectorize=True, clear=True, **KW)
+        return None
+    if r == 'derive_operator':
+        # deriving an operator (equation edit that stops using a variable) from an operator of this circuit
+        node = c.get_node_template(n0)
+        op = [o for o in node.operators if o.name == 'so'][0]
+        op.update_template(name='so_derived', equations={'replace': {'k*x': 'x'}})
+        op.update_template(name='so_derived2', equations=["d/dt * x = -x"])
+        return None
     if r == 'load_derived':
         from pyrates import CircuitTemplate
         if not os.path.exists('ym14.yaml'):
@@ -241,7 +257,7 @@ def cases(tier, seed):
                 if tier == 'quick' and m >= 1:
                     # after a mutator: all single operations, pairs over the operations that touch shared structure
                     core = ['run', 'get_edges_all', 'collect_edges', 'to_yaml', 'deepcopy', 'update_template',
-                            'derive_nodes']
+                            'derive_nodes', 'grid_search']
                     reads_all = [(r,) for r in READS] + list(itertools.product(core, repeat=2))
                 if tier != 'quick' and m <= 1:
                     reads_all += [rs for rs in itertools.product(['run', 'get_edges_all', 'to_yaml', 'deepcopy',
@@ -253,7 +269,7 @@ def cases(tier, seed):
 
 def describe(tier, seed):
     return {'rule': 'seeds {flat, depth-1, depth-2, shared operators with per-node overrides, YAML-derived, the YAML base of a derived circuit, depth-1 with a path-valued edge attribute inside a sub-circuit} x every sequence of '
-                    '<=M legitimate mutators x every sequence of <=2 (quick: pairs after a mutator over a 7-operation core; thorough: 3 on a sub-alphabet) of the 15 listed read-only / '
+                    '<=M legitimate mutators x every sequence of <=2 (quick: pairs after a mutator over an 8-operation core; thorough: 3 on a sub-alphabet) of the 17 listed read-only / '
                     'copy-making operations; invariant after every read op: canonical dump of the template (equations, '
                     'declared values, per-node variations, edges incl. attribute dicts, edge map, object sharing) unchanged; '
                     'at the end the vector field equals that of a pristine twin and two consecutive run(in_place=False) '
